@@ -311,3 +311,14 @@ TEXT['C02']['text'] += (' The loop model (Model/Interp.lean) reproduces gas befo
                         'it found.')
 TEXT['C06']['text'] += (' Inside a frame (run_gas): the interpreter loop over the frame-local instruction set never ends or continues with more gas than it '
                         'started with, for every program and table.')
+TEXT['C20']['text'] += (' Work of the frame-local instructions (interp_work_per_gas, Props/InterpWork.lean): with work counted in 32-byte words - memory '
+                        'an iteration makes the frame allocate and zero, bytes copied by CALLDATACOPY/CODECOPY (twice: padded source and copy), '
+                        'RETURNDATACOPY and MCOPY, the word multiplications of EXP (16 per exponent byte), one or two words for everything else - every '
+                        'iteration does at most 2 x (gas charged) + 1 word operations on every extracted table (a copy instruction must be wired to the '
+                        'copier gas function, EXP to an EXP gas function: rowWork, decided over all 22 tables), hence a frame given g gas does at most '
+                        '2g + n over n iterations, at most 3g + 1 in all. The memory invariant used (whole words, lastGasCost = fee of the current size) is '
+                        'proved preserved. Inherited precompiles: S stdgas compares RequiredGas of every standard precompile with go-ethereum v1.12.0\'s on '
+                        'structured inputs (MODEXP exponents with zero / one-bit / all-ones heads and long tails, BLAKE2F round counts, hash lengths either '
+                        'side of a word): what they do is go-ethereum\'s (identity fact), so asking go-ethereum\'s price bounds it.')
+TEXT['C03']['text'] += (' The reference journal refuses a string length above 2^64 - 32 (repair D21): the model computes the slot count as the code does, '
+                        '(length + 31) / 32 in uint64 arithmetic (c09_slotcount_wraps shows the wrap the guard excludes).')
